@@ -359,7 +359,13 @@ def strOf : DVal → R String
 
 def isHexStr (s : String) : Bool := s.length % 2 == 0 && s.toList.all isHexDigit
 
-def cryptoCmd (kind : String) (kbs : List KeyBlobDef) (d : Dict) (addr : Int) (input : String) : R Cmd := do
+/-- `value_to_bool` on a dictionary value -/
+def valueToBool : DVal → Bool
+  | .i v => v != 0
+  | .s t => t == "True" || t == "true" || t == "T" || t == "1"
+
+/-- `useSwap`: `_encrypt` reads the key blob's `byteSwap` (falling back to `byte_swap`); `_keywrap` does not swap -/
+def cryptoCmd (kind : String) (useSwap : Bool) (kbs : List KeyBlobDef) (d : Dict) (addr : Int) (input : String) : R Cmd := do
   let kb ← lookupKeyblob kbs ((d.get? "keyblob_id").getD (.s ""))
   match kb with
   | none => spsdkErr
@@ -371,8 +377,8 @@ def cryptoCmd (kind : String) (kbs : List KeyBlobDef) (d : Dict) (addr : Int) (i
     if !(isHexStr key) || !(isHexStr ctr) then otherErr    -- bytes.fromhex: ValueError
     else do
       checkAddr addr   -- CmdLoad.__init__
-      -- `_encrypt` looks the swap flag up under "byte_swap", a key the BD grammar never produces: always False
-      pure (.loadCrypto kind addr st en key ctr input false)
+      let swap := useSwap && valueToBool ((c.get? "byteSwap").getD ((c.get? "byte_swap").getD (.i 0)))
+      pure (.loadCrypto kind addr st en key ctr input swap)
 
 /-- `SB21Helper.get_command(name)(dict)`; `kbs` = the configuration's key blobs -/
 def cmdOfDict (env : Env) (kbs : List KeyBlobDef) (name : String) (d : Dict) : R Cmd :=
@@ -419,14 +425,14 @@ def cmdOfDict (env : Env) (kbs : List KeyBlobDef) (name : String) (d : Dict) : R
   else if name == "keywrap" then do
     let addr ← valueToInt ((d.get? "address").getD (.s ""))
     let inp ← strOf ((d.get? "values").getD (.i 0))
-    cryptoCmd "keywrap" kbs d addr inp
+    cryptoCmd "keywrap" false kbs d addr inp
   else if name == "encrypt" then do
     let addr ← valueToInt ((d.get? "address").getD (.s ""))
     match d.get? "file", d.get? "values" with
     | some (.s p), _ =>
       if p != "" then
         match env.files.find? (fun q => q.1 == p) with
-        | some q => cryptoCmd "encrypt" kbs d addr (String.ofList (q.2.foldr (fun b acc =>
+        | some q => cryptoCmd "encrypt" true kbs d addr (String.ofList (q.2.foldr (fun b acc =>
             Nat.toDigits 16 (b.toNat / 16) ++ Nat.toDigits 16 (b.toNat % 16) ++ acc) []))
         | none => spsdkErr
       else spsdkErr
@@ -435,11 +441,16 @@ def cmdOfDict (env : Env) (kbs : List KeyBlobDef) (name : String) (d : Dict) : R
         let v := hexNat h
         -- struct.pack("<L", v): struct.error beyond 32 bits
         if v > 0xFFFFFFFF then otherErr
-        else cryptoCmd "encrypt" kbs d addr (String.ofList ((natBytesLE 4 v).foldr (fun b acc =>
+        else cryptoCmd "encrypt" true kbs d addr (String.ofList ((natBytesLE 4 v).foldr (fun b acc =>
             Nat.toDigits 16 (b.toNat / 16) ++ Nat.toDigits 16 (b.toNat % 16) ++ acc) []))
       else spsdkErr
     | _, _ => spsdkErr
-  else otherErr   -- "call", "reset": KeyError in `SB21Helper.cmds`
+  else if name == "call" then do
+    let addr ← valueToInt ((d.get? "address").getD (.s ""))
+    checkAddr addr
+    pure (.call addr ((d.get? "argument").getD (.i 0)))
+  else if name == "reset" then .ok .reset
+  else otherErr   -- KeyError in `SB21Helper.cmds`
 
 /-- one statement ↦ one command (parser rule, then helper) -/
 def elabStmt (env : Env) (kbs : List KeyBlobDef) (s : Stmt) : R Cmd := do
@@ -562,11 +573,13 @@ def runProgram (env : Env) (blocks : List Block) (sections : List Section) : R (
   let secs ← runSections env' sections
   pure (env', { cfg with sections := secs })
 
-/-- `load_from_config` numbers the boot sections by their position (`enumerate(sections)`), not by `section_id` -/
-def sectionUids (cfg : Config) : List Int := (List.range cfg.sections.length).map Int.ofNat
+/-- ids of the boot sections: `value_to_int(section.get("section_id", index))` (the BD parser always delivers a section_id) -/
+def sectionUids (cfg : Config) : R (List Int) := cfg.sections.mapM (fun s => valueToInt s.1)
 
 /-- the command loop of `BootImageV21.load_from_config` -/
 def cmdsOfConfig (env : Env) (cfg : Config) : R (List (List Cmd)) :=
-  cfg.sections.mapM (fun sec => sec.2.mapM (fun c => cmdOfDict env cfg.keyblobs c.1 c.2))
+  cfg.sections.mapM (fun sec => do
+    let _ ← valueToInt sec.1
+    sec.2.mapM (fun c => cmdOfDict env cfg.keyblobs c.1 c.2))
 
 end SpsdkVerif.Bd
